@@ -31,7 +31,7 @@ ASSUMPTIONS = [
     'R-builder summaries of the coordinate lists',
     'any-code model for to_bsf/from_bsf: locations are an uninterpreted sort, qubit_index/qubit_coordinates are mutually inverse between locations carrying a qubit and [0,n) '
     '(this is what the `qubit_index` property constructs from a duplicate-free coordinate list: C02.distinct)',
-    'A-numpy: np.zeros gives zeros; a[i] += 1 updates one element; nonzero() of a 1-D array / canonical CSR row lists the non-zero column indices in ascending order',
+    'A-numpy: np.zeros gives zeros; a[i] += 1 updates one element; nonzero() lists exactly the non-zero column indices (their order no longer matters: from_bsf sorts them)',
     'dict semantics: a store overwrites, keys() iterates each key once (insertion order irrelevant for the to_bsf result)',
     'Python ints / numpy uint do not overflow for counts <= 1 per position (each key visited once)',
     'A-scipy (CSS clauses): csr.getnnz(1)[i] > 0 <=> row i of that block has a non-zero entry (stored entries are all ones by C02.H.final, so stored = non-zero); '
@@ -278,13 +278,20 @@ def sym_from_bsf_body():
     bsf = z3.Function('bsf', z3.IntSort(), z3.IntSort())
     arr = Arr((2 * n_,), lambda j: bsf(Z(j)), 'int', 'param:bsf_operator')
     selfo = Obj(cls, {'n': n_, 'qubit_coordinates': Coords()}, 'code')
+    def sorted_(x, st, a, k):
+        # sorted(<non-zero columns>) IS the ascending iteration the invariant speaks about; recorded so that the evidence can say whether the ascending order is
+        # a fact of the code or the assumption about canonical CSR storage
+        if len(a) == 1 and isinstance(a[0], Cols) and not k:
+            state['sorted'] = True
+            return a[0]
+        raise Unsupported('sorted of something other than the non-zero columns')
     intr = {'new:dict': lambda x, st: FMap(lambda l: z3.IntVal(0)),
-            'arr.nonzero': lambda x, st, a, args, kw: T([Cols()])}
+            'arr.nonzero': lambda x, st, a, args, kw: T([Cols()]), 'sorted': sorted_}
     x = X(m, intr)
     st, ret = x.run(f, [arr], {}, selfo)
     if state.get('loops') != 1 or ret is not state['post']:
         raise Unsupported('from_bsf is not: operator = dict(); one loop over the non-zero columns; return operator')
-    return dict(f=f, x=x, st=st, opv=opv, col=col, bsf=bsf, init=state['init'], post=state['post'])
+    return dict(f=f, x=x, st=st, opv=opv, col=col, bsf=bsf, init=state['init'], post=state['post'], ascending_by_code=bool(state.get('sorted')))
 
 
 def _inv_from_bsf(fn, cur, bsf):
@@ -316,7 +323,8 @@ def ob_from_bsf(which, timeout=60):
         goal = base + [_inv_from_bsf(lambda t: opv(t), 2 * n_, bsf), jj >= 0, jj < n_,
                        opv(coord(jj)) != z3.If(z3.And(bsf(jj) != 0, bsf(n_ + jj) != 0), 2, z3.If(bsf(jj) != 0, 1, z3.If(bsf(n_ + jj) != 0, 3, 0)))]
     r = check(goal, timeout)
-    return result('from_bsf.' + which, r, [s['f']], s['x'], goal)
+    return result('from_bsf.' + which, r, [s['f']], s['x'], goal,
+                  detail='columns visited in ascending order: ' + ('by the code itself (sorted)' if s['ascending_by_code'] else 'ASSUMED (canonical CSR / dense nonzero())'))
 
 
 def ob_roundtrip(timeout=30):
@@ -575,6 +583,14 @@ def native_matrix_contract(code, rnd):
         opd = {q: rnd.choice('XYZ') for q in rnd.sample(qc, min(len(qc), rnd.randint(0, 6)))}
         if code.from_bsf(code.to_bsf(opd)) != opd:
             return 'from_bsf(to_bsf(op)) != op for op=%r' % (opd,)
+        # the same operator as a sparse row whose stored indices are in descending order (a valid sparse representation, e.g. a row assembled entry by entry)
+        bb = np.asarray(code.to_bsf(opd)).astype('uint8') % 2
+        nz = np.nonzero(bb)[0][::-1].astype(np.int32)
+        if len(nz) >= 2:
+            from scipy.sparse import csr_matrix as _csr
+            row = _csr((np.ones(len(nz), dtype='uint8'), nz, np.array([0, len(nz)], dtype=np.int32)), shape=(1, 2 * n))
+            if np.array_equal(row.toarray()[0], bb) and code.from_bsf(row) != opd:
+                return 'from_bsf of a sparse row with stored indices in descending order gives %r for the operator %r' % (code.from_bsf(row), opd)
     xi, zi = np.asarray(code.x_indices), np.asarray(code.z_indices)
     hx, hz = Hd[:, :n].any(axis=1), Hd[:, n:].any(axis=1)
     if not (np.array_equal(xi, hx) and np.array_equal(zi, hz)):
